@@ -8,6 +8,7 @@ prefix), so replaying the maximal histories (the leaves) drives the real engine 
 of the configuration and reads everything back after every step.  The quick tier replays a seeded sample of long
 histories, the thorough tier every leaf up to its time budget."""
 import json
+import zlib
 import os
 import re
 import sys
@@ -87,7 +88,7 @@ def histories(ctx, dump_path, *, want, budget_s, exact_leaves):
         texts.append(t)
         acts = _ACT.findall(t)
         lens.append(len(acts))
-        shapes.append(hash(tuple(acts)))
+        shapes.append(zlib.crc32(repr(tuple(acts)).encode()))
         if acts:
             last_actions[acts[-1]] = last_actions.get(acts[-1], 0) + 1
     n = len(texts)
